@@ -551,7 +551,13 @@ func (x *Exec) applyContract(fr *Frame, st *State, ctr *Contract, sig *types.Sig
 			noret = true
 		}
 	}
-	for _, c := range ctr.Clauses {
+	clauses := ctr.Clauses
+	if sp := x.sitePanics(fr, instr); sp != nil {
+		// the function under verification says that calls of this callee may panic here
+		// ("site <callee> maypanic"): more behaviours than the callee's contract gives, never fewer
+		clauses = append(append([]*Clause{}, clauses...), &Clause{Kind: "maypanic", Tags: sp.Tags})
+	}
+	for _, c := range clauses {
 		if c.Kind == "maypanic" && !isGo {
 			// the callee may panic instead of returning, possibly after some of its effects:
 			// the panic state is the state with the callee's frame havocked and no postcondition
@@ -889,6 +895,8 @@ func (x *Exec) siteClauses(fr *Frame, st *State, call *ssa.CallCommon, instr ssa
 	var callee string
 	if call.IsInvoke() {
 		callee = shortPkgOfType(call.Value.Type()) + "." + call.Method.Name()
+	} else if b, ok := call.Value.(*ssa.Builtin); ok {
+		callee = "builtin." + b.Name()
 	} else if f := call.StaticCallee(); f != nil {
 		callee = x.prog.relName(f)
 		if !x.prog.inRepo(f) {
@@ -899,8 +907,28 @@ func (x *Exec) siteClauses(fr *Frame, st *State, call *ssa.CallCommon, instr ssa
 	} else {
 		callee = shortPkgOfType(call.Value.Type())
 	}
+	all := args
+	if call.IsInvoke() {
+		all = append([]Val{fv}, args...)
+	}
+	x.siteClausesNamed(fr, top, st, callee, instr, all)
+}
+
+// siteClausesNamed asserts the site clauses of the function under verification that name this callee.
+// Besides calls, the pseudo callees "mapupdate" (m[k] = v: arg0 map, arg1 key, arg2 value) and
+// "builtin.delete" are sites.
+func (x *Exec) siteClausesNamed(fr, top *Frame, st *State, callee string, instr ssa.Instruction, all []Val) {
+	if top == nil {
+		top = fr
+		for top.parent != nil {
+			top = top.parent
+		}
+		if !top.top || top.ctr == nil {
+			return
+		}
+	}
 	for _, c := range top.ctr.Clauses {
-		if c.Kind != "site" {
+		if c.Kind != "site" || c.SiteKind == "maypanic" {
 			continue
 		}
 		if c.Callee != callee && !strings.HasSuffix(callee, "."+c.Callee) {
@@ -925,10 +953,6 @@ func (x *Exec) siteClauses(fr *Frame, st *State, call *ssa.CallCommon, instr ssa
 			}
 			x.aliasEnv(f.fn, env)
 		}
-		all := args
-		if call.IsInvoke() {
-			all = append([]Val{fv}, args...)
-		}
 		for i, a := range all {
 			env[fmt.Sprintf("arg%d", i)] = a
 		}
@@ -941,6 +965,44 @@ func (x *Exec) siteClauses(fr *Frame, st *State, call *ssa.CallCommon, instr ssa
 		x.oblige(st, "site", name, c.Tags, instr.Pos(), g)
 		x.smt.Assert(implies(st.pc, g)) // proven here, available afterwards (intermediate assertion)
 	}
+}
+
+// sitePanics returns the "site <callee> maypanic" clause of the function under verification that
+// names the callee of this call instruction, if any.
+func (x *Exec) sitePanics(fr *Frame, instr ssa.Instruction) *Clause {
+	ci, ok := instr.(ssa.CallInstruction)
+	if !ok {
+		return nil
+	}
+	top := fr
+	for top.parent != nil {
+		top = top.parent
+	}
+	if !top.top || top.ctr == nil {
+		return nil
+	}
+	call := ci.Common()
+	var callee string
+	if call.IsInvoke() {
+		callee = shortPkgOfType(call.Value.Type()) + "." + call.Method.Name()
+	} else if f := call.StaticCallee(); f != nil {
+		callee = x.prog.relName(f)
+		if !x.prog.inRepo(f) {
+			callee = f.String()
+		}
+	} else {
+		return nil
+	}
+	for _, c := range top.ctr.Clauses {
+		if c.Kind == "site" && c.SiteKind == "maypanic" && (c.Callee == callee || strings.HasSuffix(callee, "."+c.Callee)) {
+			if x.siteMatched == nil {
+				x.siteMatched = map[*Clause]bool{}
+			}
+			x.siteMatched[c] = true
+			return c
+		}
+	}
+	return nil
 }
 
 func shortPkgOfType(t types.Type) string {
